@@ -110,8 +110,9 @@ fn not_rendering(h: &FrameRenderHandle<S>) -> bool {
 // every match arm of the protocol code; building a RenderCache needs a HashMap, which CBMC cannot afford.)
 // Unwind bounds: the protocol code has one loop (wait_until_render) whose every iteration returns or waits, so no
 // back edge is taken: unwind(1) suffices and keeps CBMC from unrolling the (infeasible, but symbolically
-// explored) drop glue of FrameRender::InProgress. blend() additionally clones the 4-element reference array
-// (4 back edges): unwind(5).
+// explored) drop glue of FrameRender::InProgress. blend() additionally clones and drops the 4-element reference
+// array (4 back edges each): those two loops get a per-loop bound of 5 through the registry's `unwindset`
+// (a global unwind(5) would unroll every nested drop-glue loop five times: > 25 min).
 macro_rules! handle_contract {
     ($name:ident, $st:expr, |$h:ident| $body:block) => { handle_contract!($name, $st, 1, |$h| $body); };
     ($name:ident, $st:expr, $unwind:expr, |$h:ident| $body:block) => {
@@ -164,7 +165,7 @@ run_contract!(handle_run_errtaken, 4);
 
 macro_rules! blend_contract {
     ($name:ident, $st:expr) => {
-        handle_contract!($name, $st, 5, |h| {
+        handle_contract!($name, $st, 1, |h| {
             let img = RenderedImage::new(Arc::clone(&h));
             let pool = JxlThreadPool::none();
             let r = img.blend(Some(Region::with_size(8, 8)), &pool);
@@ -204,7 +205,7 @@ take_reset_contract!(handle_take_errtaken, 4);
 
 // Two-step composition (a failed blend followed by another render request): the second call returns,
 // i.e. never waits (stub_wait panics if it would block forever).
-handle_contract!(handle_failed_blend_then_render_returns, 1, 5, |h| {
+handle_contract!(handle_failed_blend_then_render_returns, 1, 1, |h| {
     let img = RenderedImage::new(Arc::clone(&h));
     let pool = JxlThreadPool::none();
     let r1 = img.blend(Some(Region::with_size(8, 8)), &pool);
